@@ -117,6 +117,65 @@ impl Backoff {
     }
 }
 
+/// Verification hooks (compiled only with `--cfg p2panda_p2panda_verif`): read-only accessors, an
+/// explicit-config constructor and a way to make "reset interval elapsed" reachable without waiting.
+#[cfg(p2panda_p2panda_verif)]
+impl Config {
+    pub fn verif_new(
+        initial_value: Duration,
+        min_increment: Duration,
+        max_increment: Duration,
+        max_value: Duration,
+        min_reset: Duration,
+        max_reset: Duration,
+    ) -> Self {
+        Self {
+            initial_value,
+            min_increment,
+            max_increment,
+            max_value,
+            min_reset,
+            max_reset,
+        }
+    }
+
+    /// `[initial_value, min_increment, max_increment, max_value, min_reset, max_reset]`.
+    pub fn verif_fields(&self) -> [Duration; 6] {
+        [
+            self.initial_value,
+            self.min_increment,
+            self.max_increment,
+            self.max_value,
+            self.min_reset,
+            self.max_reset,
+        ]
+    }
+}
+
+#[cfg(p2panda_p2panda_verif)]
+impl Backoff {
+    pub fn verif_new(config: Config, seed: [u8; 32]) -> Self {
+        use rand::SeedableRng;
+        Self::new(config, ChaCha20Rng::from_seed(seed))
+    }
+
+    pub fn value(&self) -> Duration {
+        self.value
+    }
+
+    pub fn verif_reset_after(&self) -> Duration {
+        self.reset_after
+    }
+
+    /// Moves `last_reset_at` into the past, i.e. lets `d` of additional time "elapse".
+    pub fn rewind_last_reset(&mut self, d: Duration) {
+        self.last_reset_at = self
+            .last_reset_at
+            .checked_sub(d)
+            .expect("instant can be rewound");
+    }
+}
+
 #[cfg(test)]
 mod tests {
     use std::time::Duration;
